@@ -22,6 +22,9 @@ void vrt_namef(const void* addr, size_t len, const char* fmt, ...);
 void vrt_unname_all();
 // register a payload range for the happens-before race monitor (plain accesses)
 void vrt_payload(const void* addr, size_t len, const char* name);
+// opt-in (default off): make every plain access to a vrt_payload range a scheduling point, so
+// other threads can interleave between two plain accesses (use-after-release windows)
+void vrt_payload_sched(int on);
 // harness-level event attributed to the calling thread (printf style)
 void vrt_event(const char* fmt, ...);
 // start / stop the controlled section (call from the main thread; all threads created inside
